@@ -1,7 +1,19 @@
 package main
 
 import (
+	"encoding/json"
 	"fmt"
+	"math"
+	"math/rand"
+	"os"
+	"path/filepath"
+	"regexp"
+	"sort"
+	"strconv"
+	"strings"
+	"time"
+
+	"golang.org/x/tools/go/ssa"
 )
 
 // cmdSelftest checks the solver back ends and the term layer on fixed queries with known answers.
@@ -62,5 +74,119 @@ func cmdSelftest(args []string) int {
 		return 2
 	}
 	fmt.Println("selftest: all back ends agree with the expected answers")
+	if len(args) > 0 && args[0] == "solvers" {
+		return 0
+	}
+	seed := int64(1)
+	if s := os.Getenv("VERIF_SEED"); s != "" {
+		if v, err := strconv.ParseInt(s, 10, 64); err == nil {
+			seed = v
+		}
+	}
+	nOK, nTotal, problems := selftestInterpreter(seed)
+	for i, p := range problems {
+		if i < 30 {
+			fmt.Println("selftest FAIL interpreter:", p)
+		}
+	}
+	fmt.Printf("selftest: interpreter agrees with the native build on %d of %d (function, vector) pairs\n", nOK, nTotal)
+	if len(problems) > 0 || nTotal == 0 {
+		return 2
+	}
 	return 0
+}
+
+// selftestInterpreter runs the differential corpus (harness/internal/funcutil/st_corpus.go) concretely in the
+// interpreter and natively on the same vectors and compares the results.
+func selftestInterpreter(seed int64) (ok, total int, problems []string) {
+	pkgDirs := []string{"internal/funcutil"}
+	overlay, _, err := harnessOverlay(repoRoot, filepath.Join(verifRoot, "harness"), pkgDirs, false)
+	if err != nil {
+		return 0, 0, []string{err.Error()}
+	}
+	prog, err := LoadProgram(repoRoot, []string{"./internal/funcutil"}, overlay)
+	if err != nil {
+		return 0, 0, []string{err.Error()}
+	}
+	sp := prog.Package(repoModule + "/internal/funcutil")
+	var names []string
+	for name, mem := range sp.Members {
+		if _, isFn := mem.(*ssa.Function); isFn && strings.HasPrefix(name, "Selftest_") {
+			names = append(names, name)
+		}
+	}
+	sort.Strings(names)
+	rng := rand.New(rand.NewSource(seed))
+	vectors := [][3]int64{{0, 0, 0}, {1, -1, 2}, {-1, 1, -2}, {math.MaxInt64, math.MinInt64, 7}, {math.MinInt64, -1, math.MaxInt64},
+		{255, 256, 65535}, {1 << 31, 1<<32 - 1, -(1 << 31)}, {3, 5, 8}}
+	for len(vectors) < 24 {
+		v := [3]int64{}
+		for k := range v {
+			switch rng.Intn(3) {
+			case 0:
+				v[k] = int64(rng.Intn(40)) - 10
+			case 1:
+				v[k] = rng.Int63() - rng.Int63()
+			default:
+				v[k] = int64(int32(rng.Uint32()))
+			}
+		}
+		vectors = append(vectors, v)
+	}
+	payload, _ := json.Marshal(vectors)
+	text, err := runNativeTest(pkgDirs, "internal/funcutil", "^TestVerifSelftest$", "VERIF_SELFTEST", payload, 240*time.Second)
+	if err != nil {
+		return 0, 0, []string{err.Error()}
+	}
+	native := map[string]int64{}
+	for _, m := range regexp.MustCompile(`(?m)^VERIF-ST (\w+) (\d+) (-?\d+)$`).FindAllStringSubmatch(text, -1) {
+		v, _ := strconv.ParseInt(m[3], 10, 64)
+		native[m[1]+"#"+m[2]] = v
+	}
+	solver, err := NewSolver("z3", 20000)
+	if err != nil {
+		return 0, 0, []string{err.Error()}
+	}
+	defer solver.Close()
+	for _, name := range names {
+		for i, v := range vectors {
+			total++
+			h := &HarnessRun{Prog: prog, Fn: sp.Func(name), Name: name, Property: "selftest", Solver: solver,
+				Findings: map[string]*Finding{}, Reached: map[string]bool{}, Assumes: map[string]bool{},
+				Deadline: time.Now().Add(120 * time.Second), StepBudget: 5000000, FuncsSeen: map[string]bool{}, Stubs: map[string]bool{},
+				Known: map[string]KnownFinding{}, KnownSeen: map[string]string{}, AssertIDs: map[string]int{},
+				Args: []Value{BVConst(uint64(v[0]), 64), BVConst(uint64(v[1]), 64), BVConst(uint64(v[2]), 64)}}
+			oc := h.Explore()
+			want, have := native[fmt.Sprintf("%s#%d", name, i)]
+			switch {
+			case !have:
+				problems = append(problems, fmt.Sprintf("%s%v: no native result", name, v))
+			case !oc.Complete || len(h.Findings) > 0 || len(h.Results) != h.Stats.Paths:
+				msg := strings.Join(h.Errors, "; ")
+				for _, f := range h.Findings {
+					msg += " finding: " + f.AssertID + " " + f.Msg
+				}
+				problems = append(problems, fmt.Sprintf("%s%v: interpreter did not complete on one path (paths=%d) %s", name, v, h.Stats.Paths, msg))
+			default:
+				// every path (there are several only when goroutine schedules are enumerated) must give the native result
+				good := true
+				for _, res := range h.Results {
+					r, isT := res.(*Term)
+					if !isT || !r.IsConst() {
+						problems = append(problems, fmt.Sprintf("%s%v: interpreter result is not concrete", name, v))
+						good = false
+						break
+					} else if r.Signed() != want {
+						problems = append(problems, fmt.Sprintf("%s%v: interpreter %d, native %d", name, v, r.Signed(), want))
+						good = false
+						break
+					}
+				}
+				if good {
+					ok++
+				}
+			}
+		}
+	}
+	return ok, total, problems
 }
